@@ -49,7 +49,7 @@ def cases():
         return _rename_callee(d, lambda p: p == "ipp::reader::IppReader::<R>::read_u8", "std::io::Read::read_exact", "std::io::Read::read")
 
     def strict_utf8(d):
-        return _rename_callee(d, lambda p: p == "ipp::value::IppValue::parse", "std::string::String::from_utf8_lossy", "std::string::String::from_utf8")
+        return _rename_callee(d, lambda p: p.startswith(("ipp::value::", "ipp::reader::")) and "::tests::" not in p, "std::string::String::from_utf8_lossy", "std::string::String::from_utf8")
 
     def map_err(d):
         return _rename_callee(d, lambda p: p == "ipp::reader::IppReader::<R>::read_string", "std::result::Result::<T, E>::map", "std::result::Result::<T, E>::map_err")
